@@ -89,8 +89,11 @@ def cg(
         residual_flat = residual.flatten()
         residual_norm_squared = torch.vdot(residual_flat, residual_flat).real
 
-        # check if the solution is exact or already accurate enough
-        if residual_norm_squared == 0 or (tolerance != 0 and (residual_norm_squared < tolerance**2)):
+        # check if the solution is exact or already accurate enough. A squared residual norm that has underflown
+        # (subnormal) carries no information anymore: continuing would let rounding errors grow geometrically.
+        if residual_norm_squared < torch.finfo(residual_norm_squared.dtype).tiny or (
+            tolerance != 0 and (residual_norm_squared < tolerance**2)
+        ):
             return solution
 
         if residual_norm_squared_previous is not None:  # not first iteration
